@@ -44,6 +44,19 @@ pub fn run<A: Cx>(d: &mut Drv<A>, scale: usize, all: bool) {
                     d.emit(json!({"op": "itrun", "kind": k, "x": x.clone(), "y": whole(1), "w": wd}));
                 }
             }
+            // the same iterators over a static literal / over the slice a k-mer dereferences to
+            {
+                let (fs, fl) = d.foreign_src();
+                for kind in ["iter", "intoiter", "rev"] {
+                    d.emit(json!({"op": "itrun", "kind": kind, "x": fs.clone(), "y": whole(1), "w": 0}));
+                }
+                d.emit(json!({"op": "itrun", "kind": "chain", "x": fs.clone(), "y": x.clone(), "w": 0}));
+                d.emit(json!({"op": "itrun", "kind": "chain", "x": x.clone(), "y": fs.clone(), "w": 0}));
+                for wd in [1, 2, 3, fl.max(1), fl + 1] {
+                    d.emit(json!({"op": "itrun", "kind": "windows", "x": fs.clone(), "y": whole(1), "w": wd}));
+                    d.emit(json!({"op": "itrun", "kind": "chunks", "x": fs.clone(), "y": whole(1), "w": wd}));
+                }
+            }
             // partially advanced iterators finished by consumers that iterate internally
             for _ in 0..6 {
                 let kind = *d.rng.pick(&["iter", "rev", "windows", "chunks"]);
